@@ -12,10 +12,11 @@
      same_prefix W l x y   :=  x / blk W l = y / blk W l          (x and y agree on their first l bits)
      wf W (a,l)            :=  l <= W /\ a < 2^W /\ a mod blk W l = 0
    parse4 / parse6 : text -> res net   are the models of IPv4Network(text, strict=False) / IPv6Network(text, strict=False),
-   print4 of str(IPv4Network), print6_full of IPv6Network.exploded;  cidr4_text s x l (Net/IPv4Thm.v) is the DECLARATIVE
+   print4 of str(IPv4Network), print6 of str(IPv6Network) (RFC 5952 compressed text, CPython's _compress_hextets followed line by
+   line: Net/IPv6Print.v), print6_full of IPv6Network.exploded;  cidr4_text s x l (Net/IPv4Thm.v) is the DECLARATIVE
    grammar "s spells address x with prefix length l" (canonical decimal octets; /len, /netmask, /hostmask or nothing). *)
 From Coq Require Import List Bool NArith ZArith.
-From PV Require Import Base.Str Base.Value Net.Arith Net.NetText Net.IPv4 Net.IPv4Thm Net.IPv6 Net.IPv6Thm Net.Public Net.PublicTable.
+From PV Require Import Base.Str Base.Value Net.Arith Net.NetText Net.IPv4 Net.IPv4Thm Net.IPv6 Net.IPv6Thm Net.IPv6Print Net.Public Net.PublicTable.
 From PVGen Require Import PrivateNets.
 Import ListNotations.
 Local Open Scope N_scope.
@@ -144,11 +145,86 @@ Theorem C17_host_bits6 : forall s1 s2 x1 x2 l, ~ In PERCENT s1 -> ~ In PERCENT s
 Proof. exact parse6_same_range. Qed.
 Print Assumptions C17_host_bits6.
 
-(* the uncompressed spelling of every network parses back to it (Python's compressed str() is tied by the check:
-   parse6 (text printed by the implementation) = the model's network) *)
-Theorem C17_via_ref6 : forall n, wf W6 n -> parse6 (print6_full n) = Ok n.
+(* the uncompressed spelling (IPv6Network.exploded) of every network parses back to it *)
+Theorem C17_exploded6 : forall n, wf W6 n -> parse6 (print6_full n) = Ok n.
 Proof. exact parse6_print6_full. Qed.
+Print Assumptions C17_exploded6.
+
+(* ---- str(IPv6Network): the text resolve() really produces ---- *)
+
+(* str(IPv6Address) of every 128-bit address reads back as that address *)
+Theorem C17_print_addr6_roundtrip : forall a, a < 2 ^ 128 -> parse_addr6 (print_addr6 a) = Some a.
+Proof. exact parse_addr6_print_addr6. Qed.
+Print Assumptions C17_print_addr6_roundtrip.
+
+(* str(IPv6Network) of every network -- all 2^128 * 129 of them -- reads back as that network *)
+Theorem C17_print6_roundtrip : forall n, wf W6 n -> parse6 (print6 n) = Ok n.
+Proof. exact parse6_print6. Qed.
+Print Assumptions C17_print6_roundtrip.
+
+(* through a resolved reference, IPv6: whatever spelling was stored, resolve() stringifies the stored network with str()
+   (the compressed text) and the new model validates that text: the same network comes back *)
+Theorem C17_via_ref6 : forall s n, parse6 s = Ok n -> parse6 (print6 n) = Ok n.
+Proof. exact parse6_reparse_print6. Qed.
 Print Assumptions C17_via_ref6.
+
+(* the compressed and the exploded text denote the same network; distinct networks have distinct texts *)
+Theorem C17_print6_same_as_exploded : forall n, wf W6 n -> parse6 (print6 n) = parse6 (print6_full n).
+Proof. exact parse6_print6_print6_full. Qed.
+Print Assumptions C17_print6_same_as_exploded.
+
+Theorem C17_print6_injective : forall n m, wf W6 n -> wf W6 m -> print6 n = print6 m -> n = m.
+Proof. exact print6_inj. Qed.
+Print Assumptions C17_print6_injective.
+
+(* canonical form, RFC 5952 section 4.  hexnz v = '%x' % v;  zero_run gs s k := positions s .. s+k-1 of gs exist and are 0.
+   4.1 + 4.3: a hextet is 1-4 lower-case hex digits, is the hextet, and starts with '0' only when it is "0" *)
+Theorem C17_hextet_canonical : forall v, v < 65536 ->
+  parse_hextet (hexnz v) = Some v /\ (1 <= length (hexnz v) <= 4)%nat /\
+  Forall (fun c => 48 <= c <= 57 \/ 97 <= c <= 102) (hexnz v) /\ (forall t, hexnz v = 48 :: t -> t = []).
+Proof. exact hexnz_canonical. Qed.
+Print Assumptions C17_hextet_canonical.
+
+(* ... and cut at its colons, the printed address consists of such hextets and of the empty pieces around "::" only *)
+Theorem C17_print6_pieces : forall a, a < 2 ^ 128 ->
+  Forall (fun p => p = [] \/ exists v, v < 65536 /\ p = hexnz v) (split_ch COLON (print_addr6 a)).
+Proof. exact print_addr6_pieces. Qed.
+Print Assumptions C17_print6_pieces.
+
+(* what CPython's scan finds, for a list of hextets of ANY length: nothing when no hextet is zero, otherwise a run of zeros
+   that is at least as long as every run of zeros and starts no later than any run of the same length *)
+Theorem C17_best_run_spec : forall gs,
+  (best_run gs = (None, 0%nat) /\ forall s k, zero_run gs s k -> k = 0%nat) \/
+  (exists b l, best_run gs = (Some b, l) /\ (0 < l)%nat /\ zero_run gs b l /\
+     forall s k, zero_run gs s k -> (k <= l)%nat /\ (k = l -> (b <= s)%nat)).
+Proof. exact best_run_spec. Qed.
+Print Assumptions C17_best_run_spec.
+
+(* 4.2: EITHER no two neighbouring hextets are zero and the text is the eight hextets joined by ':' (4.2.2: a single zero
+   hextet is not shortened), OR the text is  hi "::" lo  where the hextets dropped are k >= 2 zeros, no run of zero hextets
+   is longer (4.2.1, 4.2.3) and none of the same length starts further left (4.2.3) *)
+Theorem C17_print6_shape : forall a,
+  let gs := groups6 a in
+  ((forall s k, zero_run gs s k -> (k <= 1)%nat) /\ print_addr6 a = join [COLON] (map hexnz gs)) \/
+  (exists hi k lo, gs = hi ++ repeat 0 k ++ lo /\ (2 <= k)%nat /\
+     print_addr6 a = join [COLON] (map hexnz hi) ++ COLON :: COLON :: join [COLON] (map hexnz lo) /\
+     forall s k', zero_run gs s k' -> (k' <= k)%nat /\ (k' = k -> (length hi <= s)%nat)).
+Proof. exact print_addr6_shape. Qed.
+Print Assumptions C17_print6_shape.
+
+(* on the text: at most one "::" and never ":::" -- neither side of the first "::" holds another, the left side does not
+   end and the right side does not begin with ':' *)
+Theorem C17_print6_one_dcolon : forall a l r, a < 2 ^ 128 -> cut_dcolon (print_addr6 a) = Some (l, r) ->
+  cut_dcolon l = None /\ cut_dcolon r = None /\ (forall t, r <> COLON :: t) /\ (forall t, l <> t ++ [COLON]) /\
+  print_addr6 a = l ++ COLON :: COLON :: r.
+Proof. exact print_addr6_one_dcolon. Qed.
+Print Assumptions C17_print6_one_dcolon.
+
+(* ... and a text without "::" means there was nothing to shorten *)
+Theorem C17_print6_no_dcolon : forall a, cut_dcolon (print_addr6 a) = None ->
+  forall s k, zero_run (groups6 a) s k -> (k <= 1)%nat.
+Proof. exact print_addr6_no_dcolon. Qed.
+Print Assumptions C17_print6_no_dcolon.
 
 (* ---------------------------------------------------------------------------------------------------------------- *)
 (* ipv4_slash_zero() / ipv6_slash_zero() *)
@@ -254,6 +330,21 @@ Example C17_ex_v6 :                     (* "::1/0" -> ::/0 ; compressed, embedde
   parse6 (T "2001:DB8::1/32") = parse6 (T "2001:0db8:0000:0000:0000:0000:0000:0000/32") /\
   parse6 (T "1::2::3") = Err EValue /\ parse6 (T "::/129") = Err EValue /\ parse6 (T "1:2:3:4:5:6:7:8:9") = Err EValue.
 Proof. repeat split; vm_compute; reflexivity. Qed.
+Example C17_ex_print6 :                 (* str(IPv6Network): the compressed text, and it reads back *)
+  print6 (42540766411282592856903984951653826560, 32) = T "2001:db8::/32" /\
+  print6 (0, 0) = T "::/0" /\ print6 (1, 128) = T "::1/128" /\
+  print6 (addr_of_groups [1;0;0;2;0;0;0;3], 128) = T "1:0:0:2::3/128" /\         (* the longer run, though it comes second *)
+  print6 (addr_of_groups [1;0;0;2;0;0;3;4], 128) = T "1::2:0:0:3:4/128" /\       (* two runs of two: the left one *)
+  print6 (addr_of_groups [1;0;2;0;3;0;4;0], 128) = T "1:0:2:0:3:0:4:0/128" /\    (* single zeros are not shortened *)
+  print6 (addr_of_groups [0;0;1;0;0;0;0;0], 125) = T "0:0:1::/125" /\            (* run at the end beats run at the start *)
+  print6 (addr_of_groups [0;0;0;1;0;0;0;5], 128) = T "::1:0:0:0:5/128" /\        (* equal runs at start and inside: the start *)
+  print6 (addr_of_groups [0;0;0;0;0;65535;258;772], 128) = T "::ffff:102:304/128" /\  (* no dotted quad in str() (3.12) *)
+  print6 (2 ^ 128 - 1, 128) = T "ffff:ffff:ffff:ffff:ffff:ffff:ffff:ffff/128" /\
+  parse6 (T "1:0:0:2::3/128") = Ok (addr_of_groups [1;0;0;2;0;0;0;3], 128) /\
+  parse6 (T "2001:DB8:0:0::/32") = Ok (42540766411282592856903984951653826560, 32) /\
+  best_run [1;0;0;2;0;0;0;3] = (Some 4%nat, 3%nat) /\ best_run [1;0;2;3;4;5;6;7] = (Some 1%nat, 1%nat) /\
+  wf W6 (addr_of_groups [0;0;1;0;0;0;0;0], 125).
+Proof. repeat split; vm_compute; try reflexivity; discriminate. Qed.
 Example C17_ex_public :                 (* the probes of DESIGN.md *)
   is_public4 (Some (134217728, 6)) false = true /\            (* 8.0.0.0/6 straddles 10.0.0.0/8: public *)
   is_public4 (Some (1681915904, 10)) false = false /\         (* 100.64.0.0/10 *)
